@@ -341,6 +341,23 @@ Theorem C10_conc_tags_origin :
 Proof. exact conc_tags_origin_src. Qed.
 Print Assumptions C10_conc_tags_origin.
 
+(* The concurrent model refines the sequential one: a call that runs ALONE (one thread, scheduled to
+   completion) leaves exactly the shared directory (all non-temporary paths) and the resolver
+   of the sequential model's operation -- the model that the kill-at-k correspondence ties to
+   the code. *)
+Theorem C10_conc_alone_refines :
+  forall (H : list N -> N) (shuffle : nat -> list entry -> list entry),
+    (forall c l e, In e (shuffle c l) <-> In e l) ->
+    forall (h : list hop) (x : ccall),
+      let s := runc H shuffle src_inplace src_unlink_first true h init in
+      exists n,
+        let c := sched shuffle (start H s [x]) (repeat 0%nat n) in
+        let s1 := run_op H shuffle src_inplace src_unlink_first true s (op_of_call x) in
+        ctags c = stags s1 /\ cdigs c = sdigs s1 /\
+        (forall p, is_temp p = false -> files (cfs c) p = files (sfs s1) p) /\ clock c = false.
+Proof. exact conc_alone_refines_src. Qed.
+Print Assumptions C10_conc_alone_refines.
+
 (* the order "publish the blob, then enter it into the resolver" is needed: a thread that tags
    first lets saveIndex write an entry for a blob that is not there yet *)
 Theorem C10_conc_refuted_tag_before_publish :
